@@ -195,4 +195,4 @@ def empty(slice_i, n):
         yield {"model": spec, "points": None, "dl": [], "dc": []}
 
 def parts(tier):
-    return [Part("empty0", enumerate_cases=(lambda t: empty(0, 1)), check=check, time_quick=120.0), Part("empty1", enumerate_cases=(lambda t: ({"model": S.with_fixed_leaf(c_["model"], "b", 1), "points": None, "dl": [], "dc": []} for c_ in empty(0, 1))), check=check, time_quick=120.0), Part("reduce_twins", strategy=lambda t: reduce_twins_case(t), check=check, quick=(2, 300), thorough=(4, 4000))] + [Part("wide_nodes", strategy=lambda t: __import__("vf.strategies", fromlist=["x"]).wide_case(allow_const=True).map(lambda c: dict(c, dl=[], dc=[])), check=check, quick=(2, 150), thorough=(4, 2000))] + [Part("shapes%d" % i, enumerate_cases=(lambda t, i=i: shapes(i, 6)), check=check, time_quick=120.0) for i in range(6)] + [Part("reduce", strategy=lambda t: case_strategy(t), check=check, quick=(8, 350), thorough=(16, 2500))]
+    return [Part("scale", strategy=lambda t: __import__("vf.strategies", fromlist=["x"]).scale_case(allow_const=True).map(lambda c: dict(c, dl=[], dc=[])), check=check, quick=(2, 40), thorough=(4, 600)), Part("empty0", enumerate_cases=(lambda t: empty(0, 1)), check=check, time_quick=120.0), Part("empty1", enumerate_cases=(lambda t: ({"model": S.with_fixed_leaf(c_["model"], "b", 1), "points": None, "dl": [], "dc": []} for c_ in empty(0, 1))), check=check, time_quick=120.0), Part("reduce_twins", strategy=lambda t: reduce_twins_case(t), check=check, quick=(2, 300), thorough=(4, 4000))] + [Part("wide_nodes", strategy=lambda t: __import__("vf.strategies", fromlist=["x"]).wide_case(allow_const=True).map(lambda c: dict(c, dl=[], dc=[])), check=check, quick=(2, 150), thorough=(4, 2000))] + [Part("shapes%d" % i, enumerate_cases=(lambda t, i=i: shapes(i, 6)), check=check, time_quick=120.0) for i in range(6)] + [Part("reduce", strategy=lambda t: case_strategy(t), check=check, quick=(8, 350), thorough=(16, 2500))]
